@@ -1141,14 +1141,14 @@ def install(P, max_split=4):
         r = deref(c.args[0])
         return r if r.variant == "Ok" else c.args[1]
 
-    @P.summary("Option::then", "bool::then")
+    @P.summary("Option::then", "bool::then", "<impl bool>::then", "core::bool::<impl bool>::then")
     def _then(ctx, c):
         b = deref(c.args[0])
         if ctx.branch(b, "bool-then"):
             return Some(callv(ctx, c.args[1], []))
         return NONE
 
-    @P.summary("bool::then_some")
+    @P.summary("bool::then_some", "<impl bool>::then_some", "core::bool::<impl bool>::then_some")
     def _then_some(ctx, c):
         b = deref(c.args[0])
         return Some(c.args[1]) if ctx.branch(b, "bool-then-some") else NONE
